@@ -1207,10 +1207,9 @@ fn compound_op(ip: Rc<Interp>, op: Op, cur: V, r: V) -> Fut {
                 let _ = call_value(ip.clone(), f, vec![r.clone()], Some(cur.clone())).await?;
                 return Ok(cur.clone());
             }
-            if m.has_meta("@host") {
-                // every operation a host object does not implement is an error
-                return rt("compound assignment not implemented by host object");
-            }
+            // a map without the compound metakey does not support the compound operator: there
+            // is no fallback to the plain operator's metakey (host objects likewise)
+            return rt("compound assignment not implemented by this map / object");
         }
         if op == Op::Rem && cur.is_num() && matches!(r, V::Int(0)) {
             return Err(Ctl::Unmodelled("remainder by integer zero".into()));
